@@ -388,7 +388,7 @@ def run(ctx, chk):
              "that allocates the slot table receives the callback's size argument unchanged): a capped preallocation makes the "
              "insertion of the remaining members fail, so the serializer's own output no longer loads")
     load_ = prog.fn("cbor_load")
-    g_ = prog.global_for(load_, "cbor_load.callbacks")
+    g_ = __import__("tables").load_callbacks_global(prog)
     noc = 0
     ctors_ = tables.constructors(prog, eff)     # the constructors that allocate a slot table of their own
     for el in (g_["init_val"].elems if g_ and g_.get("init_val") is not None else []):
